@@ -36,7 +36,7 @@ func rulesC01(c *Ctx) {
 		"(*streamableServerConn).Write:Append":        "a failed append to the event store is collected and reported unless the live delivery succeeded (the message did reach the peer); R-C08-1 pins append-before-delivery",
 		"(*streamableServerConn).Write:deliverLocked": "a failed live delivery is collected and reported unless the message was stored for replay (it is then obtainable by resumption, which is C08's guarantee)",
 		"(*streamableClientConn).setMCPHeaders:Token": "an invalid_grant failure of the token source is deliberately ignored: the request goes out without a credential and the 401 starts the authorization flow; every other failure is returned (R-C01-15 would be too coarse for this two-way branch)",
-	}, true, 5, 10)
+	}, true, 10, 24)
 	c.Rule("R-C01-1", "in-flight state is read and written only inside updateInFlight, its closures and inFlightState methods called from them", func() {
 		ifs := c.P.LookupType(pJ, "inFlightState")
 		c.Need(ifs != nil, "type internal/jsonrpc2.inFlightState")
